@@ -91,6 +91,9 @@ pub enum Wrong {
     Garbage { len: usize, kind: u8 },
     /// the genuine next packet, but the caller's message buffer is k bytes too short (classic pull)
     ShortBuffer { k: usize },
+    /// the next packet with one bit flipped, pulled into a message buffer that is k bytes too
+    /// short (k = the whole message: an empty buffer) — two things wrong in the same call
+    ShortForged { k: usize, at: Where, bit: usize },
 }
 
 impl Wrong {
@@ -114,6 +117,7 @@ impl Wrong {
             Wrong::KeyFlip { .. } => "flip.key",
             Wrong::Garbage { .. } => "garbage",
             Wrong::ShortBuffer { .. } => "short.buffer",
+            Wrong::ShortForged { .. } => "short.forged",
         }
     }
 }
@@ -610,8 +614,10 @@ impl World for StreamWorld {
             // weights per kind index
             let w = |name: &str| -> u32 {
                 match (prop, name) {
-                    ("C02", "replay") | ("C02", "skip") | ("C02", "foreign") | ("C02", "garbage") | ("C02", "adpresence") | ("C02", "shortbuf") | ("C17", "shortbuf") => 0,
+                    ("C02", "replay") | ("C02", "skip") | ("C02", "foreign") | ("C02", "garbage") | ("C02", "adpresence") | ("C17", "shortbuf") => 0,
                     (_, "shortbuf") => 4,
+                    ("C17", "shortforged") => 8,
+                    (_, "shortforged") => 4,
                     ("C02", _) => 10,
                     ("C04", "garbage") | ("C04", "truncate") => 30,
                     ("C04", _) => 4,
@@ -622,7 +628,7 @@ impl World for StreamWorld {
                     _ => 10,
                 }
             };
-            let names = ["replay", "skip", "foreign", "adflip", "adtrunc", "adext", "adpresence", "flip", "truncate", "extend", "header", "key", "garbage", "shortbuf"];
+            let names = ["replay", "skip", "foreign", "adflip", "adtrunc", "adext", "adpresence", "flip", "truncate", "extend", "header", "key", "garbage", "shortbuf", "shortforged"];
             for n in names.iter() {
                 let mut ww = w(n);
                 if *n == "replay" && self.delivered.is_empty() {
@@ -634,7 +640,7 @@ impl World for StreamWorld {
                 if (*n == "adflip" || *n == "adtrunc") && adlen == 0 {
                     ww = 0;
                 }
-                if *n == "shortbuf" && (!matches!(self.rx, Rx::Classic(_)) || clen <= 17) {
+                if (*n == "shortbuf" || *n == "shortforged") && (!matches!(self.rx, Rx::Classic(_)) || clen <= 17) {
                     ww = 0;
                 }
                 if (*n == "header" || *n == "key") && (!self.delivered.is_empty() || !matches!(self.items.first(), Some(Item::Packet(_)))) {
@@ -663,6 +669,14 @@ impl World for StreamWorld {
                 "header" => Wrong::HeaderFlip { bit: rng.usize_below(192) },
                 "key" => Wrong::KeyFlip { bit: rng.usize_below(256) },
                 "shortbuf" => Wrong::ShortBuffer { k: 1 + rng.usize_below((clen - 17).max(1)) },
+                "shortforged" => {
+                    let k = if rng.chance(1, 2) { clen - 17 } else { 1 + rng.usize_below((clen - 17).max(1)) };
+                    match rng.below(3) {
+                        0 => Wrong::ShortForged { k, at: Where::TagByte, bit: rng.usize_below(8) },
+                        1 => Wrong::ShortForged { k, at: Where::Body, bit: rng.usize_below(8 * (clen - 17).max(1)) },
+                        _ => Wrong::ShortForged { k, at: Where::Mac, bit: rng.usize_below(128) },
+                    }
+                }
                 _ => Wrong::Garbage { len: rng.usize_below(2 * 17 + 65), kind: rng.below(9) as u8 },
             };
             return Some(Event::DeliverWrong { kind });
@@ -680,7 +694,7 @@ impl World for StreamWorld {
                 // dryoc
                 let r = guarded(|| match &mut self.tx {
                     Tx::Classic(s) => {
-                        let mut ct = vec![0u8; msg.len() + 17];
+                        let mut ct = vec![0x5Au8; msg.len() + 17]; // a re-used (dirty) chunk buffer
                         ss::crypto_secretstream_xchacha20poly1305_push(s, &mut ct, &msg, adv.as_deref(), *tag).map(|_| ct)
                     }
                     Tx::Object(o) => o.push_to_vec(&msg, adv.as_ref(), Tag::from_bits_retain(*tag)),
@@ -770,6 +784,7 @@ impl World for StreamWorld {
                 let mut fresh_rx: Option<Rx> = None;
                 let mut fired = true;
                 let mut shortfall = 0usize;
+                let mut forged = false;
                 let flipbit = |buf: &mut [u8], bit: usize| -> bool {
                     if buf.is_empty() {
                         return false;
@@ -880,6 +895,20 @@ impl World for StreamWorld {
                             shortfall = (*k).clamp(1, ct.len() - 17);
                         }
                     }
+                    Wrong::ShortForged { k, at, bit } => {
+                        if !matches!(self.rx, Rx::Classic(_)) || ct.len() <= 17 {
+                            fired = false;
+                        } else {
+                            let n = ct.len();
+                            fired = match at {
+                                Where::TagByte => flipbit(&mut ct[..1], *bit),
+                                Where::Body => flipbit(&mut ct[1..n - 16], *bit),
+                                Where::Mac => flipbit(&mut ct[n - 16..], *bit),
+                            };
+                            shortfall = (*k).clamp(1, n - 17);
+                            forged = true;
+                        }
+                    }
                     Wrong::Garbage { len, kind } => {
                         ct = match kind % 3 {
                             0 => vec![0u8; *len],
@@ -910,6 +939,9 @@ impl World for StreamWorld {
                     out.note(&format!("deliver next with a buffer {} bytes short -> {}", shortfall, if accepted { "accept" } else { "reject" }));
                     if accepted {
                         out.violate("C03", "c03.reject_wrong", site(&[("flavour", flavour.name()), ("kind", kind.kind())]), format!("a pull into a message buffer {} bytes too short was accepted", shortfall));
+                        if forged {
+                            out.violate("C02", "c02.reject_corrupted", site(&[("suite", "stream"), ("receiver", flavour.name()), ("fault", kind.kind()), ("component", "-")]), format!("a corrupted stream delivery (kind {:?}) was accepted", kind));
+                        }
                     } else if matches!(obs.res, PullResult::Reject) && (self.rx.parts() != rx_before.parts() || !rx_eq(&self.rx, &rx_before)) {
                         out.violate("C03", "c03.state_unchanged_on_reject", site(&[("flavour", flavour.name()), ("kind", kind.kind())]), format!("pull state changed across a pull that was refused because the message buffer was {} bytes too short", shortfall));
                     } else {
@@ -1018,6 +1050,7 @@ impl World for StreamWorld {
                 match kind {
                     Wrong::BitFlip { at, bit } if *bit > 0 => vec![mk(Wrong::BitFlip { at: *at, bit: 0 })],
                     Wrong::AdFlip { bit } if *bit > 0 => vec![mk(Wrong::AdFlip { bit: 0 })],
+                    Wrong::ShortForged { k, at, bit } if *bit > 0 => vec![mk(Wrong::ShortForged { k: *k, at: *at, bit: 0 })],
                     Wrong::Truncate { k } if *k > 1 => vec![mk(Wrong::Truncate { k: 1 }), mk(Wrong::Truncate { k: k / 2 })],
                     Wrong::Extend { k, fill } if *k > 1 || *fill != 0 => vec![mk(Wrong::Extend { k: 1, fill: 0 })],
                     Wrong::Garbage { len, kind } if *len > 0 || *kind != 0 => vec![mk(Wrong::Garbage { len: 0, kind: 0 }), mk(Wrong::Garbage { len: len / 2, kind: *kind }), mk(Wrong::Garbage { len: len.saturating_sub(1), kind: *kind })],
